@@ -162,13 +162,21 @@ fn legacy_upgrade(p: &Program, built: &srcgen::Built, info: &ModuleInfo, o: &mut
           let end_byte = pc.comment_start + 2 + pc.comment_text.len()
             + if text[pc.comment_start..].starts_with("/*") { 2 } else { 0 };
           let end = to_position(text, end_byte.min(text.len()));
-          obj.insert(
-            "leadingComments".into(),
-            serde_json::json!([{
-              "text": pc.comment_text,
-              "range": [[start.line, start.character], [end.line, end.character]],
-            }]),
-          );
+          let pragma = serde_json::json!({
+            "text": pc.comment_text,
+            "range": [[start.line, start.character], [end.line, end.character]],
+          });
+          // every other time another comment leads the list (the pragma is
+          // the last leading comment, as in the source)
+          let comments = if pc.spec_range.0 % 2 == 1 {
+            serde_json::json!([
+              { "text": " some other comment", "range": [[0, 0], [0, 21]] },
+              pragma
+            ])
+          } else {
+            serde_json::json!([pragma])
+          };
+          obj.insert("leadingComments".into(), comments);
           exp = Some(ts);
           any = true;
         }
